@@ -11,6 +11,10 @@ Import ListNotations.
 Lemma printer_component_list_is_documented : spec_vis vis_T = vis_T.
 Proof. vm_compute. reflexivity. Qed.
 
+(* the flat text names every field of a statement, once *)
+Lemma documented_flat_complete : forall f : field, length (filter (fun r => field_eqb f (fst (fst r))) doc_flat) = 1.
+Proof. intros f; destruct f; vm_compute; reflexivity. Qed.
+
 (* what the documented list amounts to: for either position of the activation conditions, the component fields handed
    to the printer are 17, pairwise different, and every field of a statement is among them or is a property field of
    one of them *)
